@@ -1,10 +1,17 @@
 #!/usr/bin/env python3
-"""tools/confirm_seed.py /tmp/seed_Cxx/mK [check ids...]
-Confirms a sub-agent's seeded change independently in a scratch worktree (/tmp/wt_confirm):
- (1) demo passes on the clean tree, (2) demo fails with the patch, (3) the repository's test
- suite passes with the patch; then applies the patch in the scratch sandbox /tmp/sb, runs the listed checks there (default:
- the property's own quick check), reverts the sandbox, and stores everything under /verif/seeded/."""
+"""tools/confirm_seed.py <dir> [check ids...]          confirm a sub-agent's seeded change and run checks
+   tools/confirm_seed.py --recheck /verif/seeded/<name> [check ids...]   only re-run the checks
+
+Confirmation happens in a scratch worktree (/tmp/wt_confirm): (1) the demo passes on the clean
+tree, (2) the demo fails with the patch, (3) the repository's test suite passes with the patch.
+The checks then run in the scratch sandbox /tmp/sb (tools/sandbox.sh) with the patch applied
+there — never against /repo itself. A confirmed change is stored under /verif/seeded/<name>/
+(patch.diff, demo.rs, meta.json with what was run and which checks reported a violation)."""
 import json, os, re, shutil, subprocess, sys
+
+RECHECK = '--recheck' in sys.argv
+if RECHECK:
+    sys.argv.remove('--recheck')
 src = sys.argv[1].rstrip('/')
 checks = sys.argv[2:]
 meta = json.load(open(f'{src}/meta.json'))
@@ -13,66 +20,90 @@ name = f"{prop}-{os.path.basename(src)}"
 m2 = re.search(r'seed2_(C\d+)/(m\d+|alt_m\d+)$', src)
 if m2:
     name = f"{prop}-r2-{m2.group(1)}{m2.group(2)}"   # round 2: <property>-r2-<agent><mK>
-if not checks: checks = [prop]
+if RECHECK:
+    name = os.path.basename(src)
+    if not checks:
+        checks = sorted(set([prop] + meta.get('detected_by', [])))
+if not checks:
+    checks = [prop]
 WT = '/tmp/wt_confirm'
-env = dict(os.environ, CARGO_NET_OFFLINE='true')
-def sh(cmd, cwd=None, timeout=1800):
-    p = subprocess.run(cmd, shell=True, cwd=cwd, env=env, capture_output=True, text=True, timeout=timeout)
-    return p.returncode, p.stdout + p.stderr
-if not os.path.isdir(WT):
-    rc, out = sh(f'git -C /repo worktree add -q --detach {WT} HEAD'); assert rc == 0, out
-sh('git checkout -q -- . && git clean -fdq -e target', WT)
-how = meta.get('how_demo_is_run', '').split('#')[0]
-m = re.search(r'cp\s+\S*demo\.rs\s+(\S+?/tests/(\S+?)\.rs)', how)
-if not m:
-    print("cannot derive demo placement from meta.json; confirm by hand:", how); sys.exit(2)
-rel, tname = m.group(1), m.group(2)
-rel = re.sub(r'^.*?(rand_[a-z]+/tests/)', r'\1', rel)
-crate = rel.split('/')[0]
-feat = ''
-fm = re.search(r'--features\s+([\w,\-]+)', how)
-if fm: feat = f'--features {fm.group(1)}'
-if re.search(r'--release', how): feat += ' --release'
-rf = re.search(r'RUSTFLAGS=\\?"([^"\\]+)\\?"', how)
-if rf: env['RUSTFLAGS'] = rf.group(1)
-os.makedirs(os.path.dirname(f'{WT}/{rel}'), exist_ok=True)
-shutil.copy(f'{src}/demo.rs', f'{WT}/{rel}')
-res = {}
-rc, out = sh(f'cargo test -p {crate} --offline {feat} --test {tname}', WT)
-res['demo_on_clean_tree'] = 'pass' if rc == 0 else 'FAIL'
-rc, out = sh(f'git apply {src}/patch.diff', WT)
-if rc != 0: print("patch does not apply:", out); sys.exit(2)
-rc, out = sh(f'cargo test -p {crate} --offline {feat} --test {tname}', WT)
-res['demo_with_patch'] = 'fail' if rc != 0 else 'PASSES'
-os.remove(f'{WT}/{rel}')
-env.pop('RUSTFLAGS', None)
-rc, out = sh('cargo test --workspace --no-fail-fast --offline', WT)
-res['repo_tests_with_patch'] = 'pass' if rc == 0 else 'FAIL'
-if rc != 0: res['repo_tests_output'] = '\n'.join(l for l in out.splitlines() if 'FAILED' in l or 'panicked' in l)[:2000]
-sh('git checkout -q -- . && git clean -fdq -e target', WT)
-# run our checks against the change in /repo
-# the checks run in the scratch sandbox /tmp/sb (tools/sandbox.sh), never against /repo itself
 SB = '/tmp/sb'
-rc, out = sh('/verif/tools/sandbox.sh'); assert rc == 0, out
+env = dict(os.environ, CARGO_NET_OFFLINE='true')
+
+
+def sh(cmd, cwd=None, timeout=1800, e=None):
+    p = subprocess.run(cmd, shell=True, cwd=cwd, env=e or env, capture_output=True, text=True, timeout=timeout)
+    return p.returncode, p.stdout + p.stderr
+
+
+res = meta.get('confirmed', {})
+if not RECHECK:
+    if not os.path.isdir(WT):
+        rc, out = sh(f'git -C /repo worktree add -q --detach {WT} HEAD')
+        assert rc == 0, out
+    sh('git checkout -q -- . && git clean -fdq -e target', WT)
+    how = meta.get('how_demo_is_run', '').split('#')[0]
+    m = re.search(r'cp\s+\S*demo\.rs\s+(\S+?/tests/(\S+?)\.rs)', how)
+    if not m:
+        print("cannot derive demo placement from meta.json; confirm by hand:", how)
+        sys.exit(2)
+    rel, tname = m.group(1), m.group(2)
+    rel = re.sub(r'^.*?(rand_[a-z]+/tests/)', r'\1', rel)
+    crate = rel.split('/')[0]
+    feat = ''
+    fm = re.search(r'--features\s+([\w,\-]+)', how)
+    if fm:
+        feat = f'--features {fm.group(1)}'
+    if re.search(r'--release', how):
+        feat += ' --release'
+    denv = dict(env)
+    rf = re.search(r'RUSTFLAGS=\\?"([^"\\]+)\\?"', how)
+    if rf:
+        denv['RUSTFLAGS'] = rf.group(1)
+    os.makedirs(os.path.dirname(f'{WT}/{rel}'), exist_ok=True)
+    shutil.copy(f'{src}/demo.rs', f'{WT}/{rel}')
+    res = {}
+    rc, out = sh(f'cargo test -p {crate} --offline {feat} --test {tname}', WT, e=denv)
+    res['demo_on_clean_tree'] = 'pass' if rc == 0 else 'FAIL'
+    rc, out = sh(f'git apply {src}/patch.diff', WT)
+    if rc != 0:
+        print("patch does not apply:", out)
+        sys.exit(2)
+    rc, out = sh(f'cargo test -p {crate} --offline {feat} --test {tname}', WT, e=denv)
+    res['demo_with_patch'] = 'fail' if rc != 0 else 'PASSES'
+    os.remove(f'{WT}/{rel}')
+    rc, out = sh('cargo test --workspace --no-fail-fast --offline', WT)
+    res['repo_tests_with_patch'] = 'pass' if rc == 0 else 'FAIL'
+    if rc != 0:
+        res['repo_tests_output'] = '\n'.join(l for l in out.splitlines() if 'FAILED' in l or 'panicked' in l)[:2000]
+    sh('git checkout -q -- . && git clean -fdq -e target', WT)
+    meta['demo_placement'] = rel
+
+rc, out = sh('/verif/tools/sandbox.sh')
+assert rc == 0, out
 det = {}
 try:
-    rc, out = sh(f'git -C {SB}/repo apply {src}/patch.diff'); assert rc == 0, out
+    rc, out = sh(f'git -C {SB}/repo apply {src}/patch.diff')
+    assert rc == 0, out
     for c in checks:
-        rc, out = sh(f'{SB}/verif/check {c} {os.environ.get("TIER","quick")}', timeout=7200)
+        rc, out = sh(f'{SB}/verif/check {c} {os.environ.get("TIER", "quick")}', timeout=7200)
         sigs = sorted(set(re.findall(r'signature=(\S+)', out)))
         det[c] = {'exit': rc, 'signatures': sigs[:6]}
 finally:
     sh(f'git -C {SB}/repo checkout -- .')
-ok = res['demo_on_clean_tree'] == 'pass' and res['demo_with_patch'] == 'fail' and res['repo_tests_with_patch'] == 'pass'
+ok = res.get('demo_on_clean_tree') == 'pass' and res.get('demo_with_patch') == 'fail' and res.get('repo_tests_with_patch') == 'pass'
 meta['confirmed'] = res
+if RECHECK:
+    meta.setdefault('history', []).append({'checks_run': meta.get('checks_run'), 'detected_by': meta.get('detected_by')})
 meta['checks_run'] = det
 meta['detected_by'] = [c for c, d in det.items() if d['exit'] == 1]
-meta['demo_placement'] = rel
 print(name, json.dumps(res), json.dumps(det))
 if ok:
     dst = f'/verif/seeded/{name}'
     os.makedirs(dst, exist_ok=True)
-    shutil.copy(f'{src}/patch.diff', dst); shutil.copy(f'{src}/demo.rs', dst)
+    if not RECHECK:
+        shutil.copy(f'{src}/patch.diff', dst)
+        shutil.copy(f'{src}/demo.rs', dst)
     json.dump(meta, open(f'{dst}/meta.json', 'w'), indent=1)
     print("kept as", dst, "detected_by", meta['detected_by'])
 else:
